@@ -456,17 +456,26 @@ class Program:
             return t.__name__ if t.__module__ == "builtins" else "%s.%s" % (t.__module__.split(".")[0], t.__name__)
         return str(t)
 
-    def resolve_exc_expr(self, mod: Module, expr: ast.expr) -> List[Union[ClassInfo, type, str]]:
+    def resolve_exc_expr(self, mod: Module, expr: ast.expr, _depth: int = 0) -> List[Union[ClassInfo, type, str]]:
         """Classes named by an ``except`` clause expression."""
         if isinstance(expr, ast.Tuple):
             out = []
             for e in expr.elts:
-                out.extend(self.resolve_exc_expr(mod, e))
+                out.extend(self.resolve_exc_expr(mod, e, _depth))
             return out
         if isinstance(expr, ast.Name):
             b = self.lookup(mod, expr.id)
             if b and b[0] == "class":
                 return [b[1]]
+            if b and b[0] == "func" and _depth < 3:
+                # raise make_error(...): the classes of what the factory function returns
+                out = []
+                for r in ast.walk(b[1].node):
+                    if isinstance(r, ast.Return) and r.value is not None:
+                        v = r.value.func if isinstance(r.value, ast.Call) else r.value
+                        out.extend(self.resolve_exc_expr(b[1].module, v, _depth + 1))
+                if out:
+                    return list(dict.fromkeys(out))
         n = self.ext_name(mod, expr)
         if n:
             return [self.ext_class(n)]
@@ -741,6 +750,9 @@ class Program:
         try:
             if isinstance(f, ast.Name) and f.id in _PURE_BUILTINS and self.lookup(mod, f.id) == ("ext", "builtins.%s" % f.id):
                 return _PURE_BUILTINS[f.id](*args, **kw)
+            ext = self.ext_name(mod, f) if isinstance(f, (ast.Name, ast.Attribute)) else None
+            if ext in _PURE_EXT:
+                return _PURE_EXT[ext](*args, **kw)
             if isinstance(f, ast.Attribute):
                 if isinstance(f.value, ast.Name) and f.value.id in ("bytes", "int") and f.attr in ("fromhex", "from_bytes", "to_bytes"):
                     return getattr(getattr(builtins, f.value.id), f.attr)(*args, **kw)
@@ -788,6 +800,10 @@ _PURE_METHODS = {"hex", "format", "upper", "lower", "encode", "decode", "startsw
                  "bit_length"}
 
 import operator as _op
+import bisect as _bisect
+
+_PURE_EXT = {"bisect.bisect_left": _bisect.bisect_left, "bisect.bisect_right": _bisect.bisect_right, "bisect.bisect": _bisect.bisect,
+             "operator.itemgetter": _op.itemgetter, "operator.attrgetter": _op.attrgetter}
 
 _BINOPS = {ast.Add: _op.add, ast.Sub: _op.sub, ast.Mult: _op.mul, ast.Div: _op.truediv, ast.FloorDiv: _op.floordiv,
            ast.Mod: _op.mod, ast.Pow: _op.pow, ast.LShift: _op.lshift, ast.RShift: _op.rshift, ast.BitOr: _op.or_,
